@@ -210,6 +210,8 @@ pub struct Emission {
     pub queued_at_log_seq: u64,
     /// the command asks the handler to emit a NotifyBehaviour tagged with `n`
     pub emit: bool,
+    /// the command asks the handler to keep an event tagged with `n` back and yield it from `poll_close`
+    pub emit_on_close: bool,
 }
 
 /// Extension points for checks whose behaviour is more than probes (C52, C53): behaviour-specific
@@ -919,11 +921,12 @@ where
                 let nno = self.next_n;
                 let handler = if *any { NotifyHandler::Any } else { NotifyHandler::One(ConnectionId::new_unchecked(conn as usize)) };
                 let seq = self.w.log.lock().unwrap().recs.len() as u64;
-                self.emissions.push(Emission { node: i as u8, field: f as u8, n: nno, peer, one: if *any { None } else { Some(conn) }, queued_at_log_seq: seq, emit: matches!(cmd, HCmd::Emit(_)) });
+                self.emissions.push(Emission { node: i as u8, field: f as u8, n: nno, peer, one: if *any { None } else { Some(conn) }, queued_at_log_seq: seq, emit: matches!(cmd, HCmd::Emit(_)), emit_on_close: matches!(cmd, HCmd::EmitOnClose(_)) });
                 self.flags.notifies += 1;
                 // handler-emitted events carry the notification number as their tag so that they can be correlated
                 let cmd = match cmd {
                     HCmd::Emit(_) => HCmd::Emit(nno),
+                    HCmd::EmitOnClose(_) => HCmd::EmitOnClose(nno),
                     c => c.clone(),
                 };
                 self.w.nodes[i].swarm.behaviour_mut().probe(f).push_cmd(ToSwarm::NotifyHandler { peer_id: peer, handler, event: HIn { n: nno, cmd } });
